@@ -28,11 +28,12 @@ RULE = (
     "One gate table; each row = (valid base artefact from the independent builders, field, accepted set, entry point). For every "
     "magic / signature (QCOW2, VHDX file identifier / current header / both region tables / metadata table, VDI, HDS v1+v2, "
     "VMDK KDMV / COWD / SE-sparse via SparseDisk and via a descriptor SPARSE extent, Hyper-V header / replay log / object "
-    "table / key table, envelope magic) every single-bit flip is enumerated; version numbers, cluster_bits, crypt_method, "
+    "table / key table also behind a nested object table, envelope magic) every single-bit flip is enumerated; version numbers, cluster_bits, crypt_method, "
     "compression type, AEAD footer version, feature bits (data file without data file, extended L2 with small clusters), "
     "missing VHDX regions, parent locator type, missing parents/backing files, Parallels image Type, .hdd directory without "
     "descriptor, envelope cipher name / missing required attributes, keystore mode, key-safe identifier / locator kinds / "
-    "cipher / KDF / MAC names are sampled from outside the accepted set (boundaries forced). Oracle: opening the mutated input "
+    "cipher / KDF / MAC names are sampled from outside the accepted set (boundaries forced; names also as near misses of the accepted "
+    "tokens: substrings, case variants, doubled, prefixed / suffixed); missing backing / data file also in combination with the other.  Oracle: opening the mutated input "
     "raises (any exception) — for key-safe gates unlock raises and leaves attr unchanged — while the unmodified base opens. "
     "Non-trivial = base opened and the value is outside the accepted set; distinct = (gate, value)."
 )
@@ -66,8 +67,9 @@ def base_qcow2(version=3, cb=16, ext=False, comp=True):
 
 
 @functools.lru_cache(maxsize=None)
-def base_qcow2_backing():
-    spec = {"version": 3, "cluster_bits": 12, "size": 8 << 12, "header_length": 112, "ext_l2": False, "data_file": False,
+def base_qcow2_backing(data_file=False, named=True):
+    spec = {"version": 3, "cluster_bits": 12, "size": 8 << 12, "header_length": 112, "ext_l2": False, "data_file": data_file,
+            "data_file_named": named,
             "clusters": [[0, "n", 0, None]], "l2_interleave": False, "l2_slots": {}, "meta_order": ["l1", "refcount", "snap", "l2"],
             "far_base": 0, "copied": True, "comp_shift": 0, "cgaps": [0], "comp_far": 0, "layer": 0,
             "backing": {"name": "base.img", "format": "raw", "length": 8 << 12}}
@@ -120,6 +122,14 @@ HV_SPEC = {"entries": [{"id": 0, "parent": None, "key": "configuration", "type":
 def base_hyperv():
     data, meta = bhv.build(HV_SPEC)
     return data, meta["replay_log_offset"]
+
+
+@functools.lru_cache(maxsize=None)
+def base_hyperv_chained():
+    """Key table 1 (0x3000) is listed in the first object table, key table 2 (0x4000) only in a nested one (0x7000)."""
+    data, _meta = bhv.build(dict(HV_SPEC, object_table={"chain_at": 0, "chain_depth": 2}))
+    assert data[0x7000:0x7004] == struct.pack("<I", 0x01110001) and data[0x4000:0x4002] == b"\x02\x00"
+    return data
 
 
 ENV_SPEC = {"payload_len": 100, "payload_key": 5, "padding": 3, "key": bytes(range(32)).hex(), "iv": bytes(range(12)).hex(),
@@ -253,6 +263,9 @@ def byte_gates():
         "hyperv.replay_log.signature": (lambda: hv, replay, 4, "<", lambda v: v == 0x01110003, open_hyperv),
         "hyperv.object_table.signature": (lambda: hv, 0x2000, 4, "<", lambda v: v == 0x01110001, open_hyperv),
         "hyperv.key_table.signature": (lambda: hv, 0x3000, 2, "<", lambda v: v == 2, open_hyperv),
+        # the same gates for structures that are only reachable through a second, nested object table
+        "hyperv.nested.object_table.signature": (base_hyperv_chained, 0x7000, 4, "<", lambda v: v == 0x01110001, open_hyperv),
+        "hyperv.nested.key_table.signature": (base_hyperv_chained, 0x4000, 2, "<", lambda v: v == 2, open_hyperv),
         "envelope.magic": (base_envelope, 0, 21, "<", lambda v: v == int.from_bytes(b"DataTransformEnvelope", "little"), open_envelope),
         "envelope.version": (base_envelope, 508, 4, "<", lambda v: v == 2, open_envelope),
         "envelope.aead_footer.version": (base_envelope, len(base_envelope()) - 4, 4, "<", lambda v: v == 1, open_envelope),
@@ -268,11 +281,12 @@ _VMDK_MAGICS = {int.from_bytes(b"KDMV", "little"), int.from_bytes(b"COWD", "litt
 MAGIC_GATES = ["qcow2.magic", "vhdx.file_identifier", "vhdx.current_header", "vhdx.region_table_1", "vhdx.region_table_2",
                "vhdx.metadata_table", "vdi.signature", "hds.signature.v1", "hds.signature.v2", "vmdk.kdmv.magic", "vmdk.cowd.magic",
                "vmdk.sesparse.magic", "vmdk.sesparse.magic.vmdk", "vmdk.descriptor-extent.magic", "envelope.magic.noverify", "hyperv.header.signature", "hyperv.replay_log.signature",
-               "hyperv.object_table.signature", "hyperv.key_table.signature", "envelope.magic"]
+               "hyperv.object_table.signature", "hyperv.key_table.signature", "envelope.magic", "hyperv.nested.object_table.signature",
+               "hyperv.nested.key_table.signature"]
 VALUE_GATES = ["qcow2.version", "qcow2.cluster_bits", "qcow2.crypt_method", "qcow2.compression_type=zstd", "qcow2.compression_type>=2",
                "hyperv.header.version", "envelope.version", "envelope.aead_footer.version", "envelope.version.noverify",
                "envelope.aead_footer.version.noverify"]
-SEMANTIC_GATES = ["qcow2.data_file_bit", "qcow2.extl2_small_clusters", "qcow2.backing_without_object", "vhdx.missing_region",
+SEMANTIC_GATES = ["qcow2.data_file_bit", "qcow2.extl2_small_clusters", "qcow2.backing_without_object", "qcow2.data_file_without_object", "vhdx.missing_region",
                   "vhdx.locator_type", "vhdx.parent_missing", "hdd.image_type", "hdd.no_descriptor", "envelope.cipher_name",
                   "envelope.missing_attribute", "keystore.mode", "keysafe.identifier", "keysafe.locator_kind", "keysafe.names"]
 
@@ -293,10 +307,31 @@ def exhaustive(tier):
                 yield {"gate": name, "mode": "value", "value": v}
 
 
+ACCEPTED_TOKENS = {"keystore.mode": ["NONE"], "envelope.cipher_name": ["AES-256-GCM"], "hdd.image_type": ["Compressed", "Plain"],
+                   "keysafe.identifier": ["vmware:key"], "keysafe.names": ["AES-256", "HMAC-SHA-1", "PBKDF2-HMAC-SHA-1"],
+                   "keysafe.locator_kind": ["phrase", "pair", "list"]}
+
+
+def near_names(token: str) -> list[str]:
+    """Strings a sloppy comparison (substring, prefix, case-insensitive, stripped) would take for `token`."""
+    out = {token.lower(), token.upper(), token.title(), token + token, token + "X", "X" + token, token[:-1], token[1:], token + "\0", token[::-1]}
+    if len(token) <= 8:
+        out |= {token[i:j] for i in range(len(token)) for j in range(i + 1, len(token) + 1)}
+    else:
+        out |= {token[:k] for k in (1, 3, len(token) // 2)} | {token[-k:] for k in (1, 3, len(token) // 2)}
+    out.discard(token)
+    out.discard("")
+    return sorted(out)
+
+
 @st.composite
 def strategy_(draw, tier):
     if draw(st.integers(0, 2)) == 0:
         name = draw(st.sampled_from(SEMANTIC_GATES))
+        if name in ACCEPTED_TOKENS and draw(st.booleans()):
+            tok = draw(st.sampled_from(ACCEPTED_TOKENS[name]))
+            return {"gate": name, "mode": "semantic", "n": draw(st.integers(0, 1 << 32)),
+                    "text": draw(st.sampled_from(near_names(tok))), "name": draw(st.sampled_from(near_names(tok)))}
         return {"gate": name, "mode": "semantic", "n": draw(st.integers(0, 1 << 32)),
                 "text": draw(st.sampled_from(["rawkey", "ldap", "script", "role", "fqid", "phrases", "Pair", "LIST", "", "x"])),
                 "name": draw(st.sampled_from(["AES-512", "aes-256", "AES-256-CBC", "", "DES", "HMAC-MD5", "HMAC-SHA-512", "hmac-sha-1", "PBKDF2-HMAC-SHA-512",
@@ -361,9 +396,19 @@ def semantic(spec, out):
         err = lib(open_qcow2, bad)[1]
         ctl = lib(open_qcow2, good)[1]
     elif name == "qcow2.backing_without_object":
-        base = base_qcow2_backing()
-        err = lib(open_qcow2, base)[1]
-        ctl = lib(open_qcow2, base, backing_file=io.BytesIO(bytes(8 << 12)))[1]
+        # alone, or together with an external data file (named in the header or not) that the caller does supply
+        variant = n % 3
+        base = base_qcow2_backing(data_file=variant > 0, named=variant == 1)
+        kw = {"data_file": io.BytesIO(bytes(8 << 12))} if variant else {}
+        out.cls(["backing-only", "backing+named-data-file", "backing+unnamed-data-file"][variant])
+        err = lib(open_qcow2, base, **kw)[1]
+        ctl = lib(open_qcow2, base, backing_file=io.BytesIO(bytes(8 << 12)), **kw)[1]
+    elif name == "qcow2.data_file_without_object":
+        # the mirror image: the data file is missing while a backing file is supplied
+        variant = n % 2
+        base = base_qcow2_backing(data_file=True, named=bool(variant))
+        err = lib(open_qcow2, base, backing_file=io.BytesIO(bytes(8 << 12)))[1]
+        ctl = lib(open_qcow2, base, backing_file=io.BytesIO(bytes(8 << 12)), data_file=io.BytesIO(bytes(8 << 12)))[1]
     elif name == "vhdx.missing_region":
         base = base_vhdx()
         which = n % 2  # region table entries are at 3*64K + 16 + 32*i ; both tables are patched
